@@ -1,12 +1,15 @@
 use rusty_common::AtPos;
 use rusty_parser::{
-    ConditionalBlock, DoLoop, ExpressionPos, ExpressionType, HasExpressionType, TypeQualifier,
+    ArrayDimension, ConditionalBlock, DimList, DimType, DoLoop, Expression, ExpressionPos,
+    ExpressionType, ForLoop, HasExpressionType, TypeQualifier,
 };
 
 use crate::core::{LintError, LintErrorPos};
 use crate::post_linter::post_conversion_linter::PostConversionLinter;
 
-/// Ensures that expressions appearing in logical conditions are numeric.
+/// Ensures that expressions appearing in logical conditions,
+/// in the header of a FOR loop, in the bounds of an array
+/// and in the subscripts of an array element are numeric.
 pub struct ConditionTypeLinter {}
 
 impl ConditionTypeLinter {
@@ -27,11 +30,69 @@ impl ConditionTypeLinter {
 impl PostConversionLinter for ConditionTypeLinter {
     fn visit_conditional_block(&mut self, c: &ConditionalBlock) -> Result<(), LintErrorPos> {
         self.visit_statements(&c.statements)?;
+        self.visit_expression(&c.condition)?;
         Self::ensure_expression_is_condition(&c.condition)
+    }
+
+    fn visit_expression(&mut self, e: &ExpressionPos) -> Result<(), LintErrorPos> {
+        // the subscripts of an array element are numeric
+        match &e.element {
+            Expression::ArrayElement(_, indices, _) => {
+                for index in indices {
+                    Self::ensure_expression_is_condition(index)?;
+                    self.visit_expression(index)?;
+                }
+                Ok(())
+            }
+            Expression::BinaryExpression(_, left, right, _) => {
+                self.visit_expression(left)?;
+                self.visit_expression(right)
+            }
+            Expression::UnaryExpression(_, child) | Expression::Parenthesis(child) => {
+                self.visit_expression(child)
+            }
+            Expression::FunctionCall(_, args) | Expression::BuiltInFunctionCall(_, args) => {
+                self.visit_expressions(args)
+            }
+            _ => Ok(()),
+        }
+    }
+
+    fn visit_for_loop(&mut self, f: &ForLoop) -> Result<(), LintErrorPos> {
+        self.visit_expression(&f.lower_bound)?;
+        self.visit_expression(&f.upper_bound)?;
+        if let Some(step) = &f.step {
+            self.visit_expression(step)?;
+        }
+        // the bounds and the step of a FOR loop are numeric, like a condition
+        Self::ensure_expression_is_condition(&f.lower_bound)?;
+        Self::ensure_expression_is_condition(&f.upper_bound)?;
+        if let Some(step) = &f.step {
+            Self::ensure_expression_is_condition(step)?;
+        }
+        self.visit_statements(&f.statements)
+    }
+
+    fn visit_dim(&mut self, dim_list: &DimList) -> Result<(), LintErrorPos> {
+        // the bounds of an array are numeric too
+        for dim_var in &dim_list.variables {
+            if let DimType::Array(dimensions, _) = dim_var.element.var_type() {
+                for ArrayDimension { lbound, ubound } in dimensions {
+                    if let Some(lbound) = lbound {
+                        self.visit_expression(lbound)?;
+                        Self::ensure_expression_is_condition(lbound)?;
+                    }
+                    self.visit_expression(ubound)?;
+                    Self::ensure_expression_is_condition(ubound)?;
+                }
+            }
+        }
+        Ok(())
     }
 
     fn visit_do_loop(&mut self, do_loop: &DoLoop) -> Result<(), LintErrorPos> {
         self.visit_statements(&do_loop.statements)?;
+        self.visit_expression(&do_loop.condition)?;
         Self::ensure_expression_is_condition(&do_loop.condition)
     }
 }
